@@ -304,6 +304,30 @@ func enumName(v reflect.Value) string {
 	return def.FieldByName("Name").String()
 }
 
+// enumJSONName is the RFC 7951 rendering of an enumeration or identityref value. An
+// identity may be written with the name of its defining module in front ("module:NAME");
+// that form is used for the identities whose name has an even number of characters, so that
+// both spellings reach the decoders.
+func enumJSONName(v reflect.Value) string {
+	name := enumName(v)
+	m := v.MethodByName("ΛMap")
+	if !m.IsValid() {
+		return name
+	}
+	inner := m.Call(nil)[0].MapIndex(reflect.ValueOf(v.Type().Name()))
+	if !inner.IsValid() {
+		return name
+	}
+	def := inner.MapIndex(reflect.ValueOf(v.Int()))
+	if !def.IsValid() {
+		return name
+	}
+	if mod := def.FieldByName("DefiningModule"); mod.IsValid() && mod.String() != "" && len(name)%2 == 0 {
+		return mod.String() + ":" + name
+	}
+	return name
+}
+
 // Render gives the canonical, type-tagged rendering of a leaf value. Union members are
 // rendered by their underlying YANG value class, so UnionUint32(5) and a wrapper struct
 // holding uint32 5 render alike.
